@@ -15,7 +15,7 @@ from .. import session, harness, worldgen
 from ..device import GenericObject
 from ..refmodel import Ref, render, values_equal
 
-PROPS = ("C10", "C11", "C17")
+PROPS = ("C10", "C11", "C17", "C09")
 GEN_TAKES_PROP = True
 
 SEND_FAULTS = ("send_epipe", "send_rst", "send_timeout")
@@ -96,7 +96,7 @@ def run(sc):
     ref = Ref(project) if project else None
     pol = sc["world"].get("policy", {})
     dcls = sc["driver"].get("cls", "LogixDriver")
-    evals = {"C10": 0, "C11": 0, "C17": 0}
+    evals = {"C10": 0, "C11": 0, "C17": 0, "C09": 0}
     shape = []
     calls = 0
     sess_faulted = False      # a fault fired in the current driver session (open..close)
@@ -179,6 +179,7 @@ def run(sc):
                           "F" if fired_now else ""))
             evals["C10"] += 1
             evals["C11"] += 1
+            evals["C09"] += 1
             evals["C17"] += len([1 for r in world.oplog if r.get("kind") == "seq"])
             ph = phase_of(env, k)
             # I5 ------------------------------------------------------------
@@ -304,9 +305,16 @@ def gen_base(r, tier, prop):
     pol = dict(r.choice(POLICIES))
     if dcls == "LogixDriver":
         project = worldgen.light_project(r)
-        layout = r.choice(("compact", "clx"))
+        layout = r.choice(("compact", "clx", "compact", "clx", "micro800"))
+        idn = {"rev_major": r.choice((17, 20, 21, 32))}
+        if layout == "micro800":
+            idn = {"rev_major": r.choice((10, 12, 21)), "product_name": "2080-LC50-48QWB"}
+            for t in project["tags"]:
+                t["scope"] = t.get("scope")          # Micro800 projects have no programs in these worlds
+            project["tags"] = [t for t in project["tags"] if t.get("scope") is None and t.get("kind", "user") != "program"]
+            project["programs"] = {}
         world = {"layout": layout, "ip": "10.0.0.1", "project": project, "policy": pol,
-                 "identity": {"rev_major": r.choice((17, 20, 21, 32))},
+                 "identity": idn,
                  "choices": {"frag": r.choice(("max", "mixed")), "page": r.choice(("max", 1, "rand")),
                              "handles": r.choice(("random32", "small"))}}
         path = "10.0.0.1"
@@ -365,7 +373,7 @@ def gen_base(r, tier, prop):
                             "value": reqgen.gen_value(r, ref, t["type"])})
         elif k.startswith("generic"):
             mode = {"generic_c": "connected", "generic_u": "unconnected", "generic_us": "unconnected_send"}[k]
-            if mode == "unconnected_send" and dcls == "CIPDriver":
+            if mode == "unconnected_send" and (dcls == "CIPDriver" or sc["world"]["layout"] == "micro800"):
                 mode = "unconnected"
             ops.append({"id": oid, "kind": "generic", "mode": mode})
         elif k == "with_ok":
@@ -384,7 +392,7 @@ def gen(seed, tier, prop="C10"):
     r = Sim(seed).stream("gen")
     sc = gen_base(r, tier, prop)
     sc["seed"] = seed
-    if prop == "C17" or r.random() < 0.15 or (prop == "C11" and r.random() < 0.4):
+    if prop in ("C17", "C09") or r.random() < 0.15 or (prop == "C11" and r.random() < 0.4):
         return sc                       # fault-free history
     fatal_only = prop != "C10"          # C11's frames are judged under fail-stop faults only (DESIGN 15.4)
     # one (quick) or up to three (thorough) faults at positions of the fault-free twin
